@@ -201,9 +201,10 @@ const (
 	H1 = "h1.example.com"
 	H2 = "h2.example.com"
 	H3 = "other.org"
+	H4 = "a.h1.example.com" // one label more than the glob patterns have
 )
 
-var Hosts = []string{H1, H2, H3} //nolint:gochecknoglobals
+var Hosts = []string{H1, H2, H3, H4} //nolint:gochecknoglobals
 
 // HostMatchers: patterns with hand-written meaning (self-tested against the libraries at start-up).
 func HostMatchers() []Matcher {
